@@ -11,6 +11,20 @@ LOAD_YAML = "nasim.scenarios.utils:load_yaml"
 
 _cache = {}
 
+import re as _re
+_GET = _re.compile(r"\.get\(('[A-Za-z_]+')(, None)?\)")
+
+
+def spell(F):
+    """`d.get('k')` and `d['k']` denote the same document entry wherever the entry exists; guards
+    are compared modulo this spelling (presence is judged separately through the residual)"""
+    from sa.canon import f_subst, A as _A
+
+    def fn(a):
+        b = _GET.sub(lambda m: f"[{m.group(1)}]", a)
+        return _A(b) if b != a else None
+    return f_subst(F, fn)
+
 
 class Guard:
     def __init__(self, ev, formula, loops, residual, kind, func):
@@ -69,7 +83,8 @@ class LoaderFacts:
             residual = [c for c in cond_pc if c[0] not in ("inloop", "fact")
                         and c not in established]
             # an `exc` marker (except handler) is kept as residual
-            g = Guard(ev, cn.formula(test), loops, residual, ev.kind, ev.func.split(":")[1])
+            g = Guard(ev, spell(cn.formula(test)), loops, residual, ev.kind,
+                      ev.func.split(":")[1])
             g.test = test
             self.guards.append(g)
             established.append(test)
@@ -84,7 +99,7 @@ class LoaderFacts:
                 self.conjuncts.append((p, g))
 
     def residual_formula(self, g):
-        return self.cn.conj(tuple(g.residual))
+        return spell(self.cn.conj(tuple(g.residual)))
 
     # ------------------------------------------------------------------ scenario dict
     def scenario_dict(self):
